@@ -1000,6 +1000,19 @@ def bsetOp (s : State) (h pos : Nat) (bytes : List Byte) (hasSrc : Bool) : Out I
       | .fail s1 e => .fail s1 e
       | .fault w => .fault w
 
+/-- as `bsetOp`, but `mpt_buffer_set` is handed the element type `src` instead of the buffer's own -/
+def bsetAsOp (s : State) (h : Nat) (src : Option Traits) (pos : Nat) (bytes : List Byte) (hasSrc : Bool) : Out Int :=
+  match s.handle h with
+  | none => .fail s .null
+  | some b =>
+    match s.buf? b with
+    | none => .fault "bset: freed buffer"
+    | some x =>
+      match ensure s h b true (max x.used (pos + bytes.length)) with
+      | .ok s1 nb => bufferSet s1 nb src pos bytes hasSrc
+      | .fail s1 e => .fail s1 e
+      | .fault w => .fault w
+
 /-- harness set-up: drop `h`, then `_mpt_buffer_alloc(max n len, flags)` filled with `bytes` by hand -/
 def allocOp (s : State) (h n flags : Nat) (traits : Option Traits) (bytes : List Byte) : Out Unit :=
   match arrayClone s h none with
